@@ -33,6 +33,9 @@ struct Stats {
     callee_alloc_returns: u64,
     forwarded_coins: u64,
     build_errors: u64,
+    sp_residues: BTreeMap<String, u64>,
+    unaligned_calls: u64,
+    zero_coin_calls_under_nonzero_bal: u64,
 }
 
 const NOT_RESTORED: [usize; 6] = [R_CGAS, R_GGAS, R_RET, R_RETL, R_HP, R_PC];
@@ -94,21 +97,33 @@ fn run_scenario(out: &mut Out, st: &mut Stats, world: &World, tx: &TxSpec, repla
             if fv[1] > 0 { st.forwarded_coins += 1; }
             // oracle: callee's initial registers, from the property text
             let fp1 = ra[R_FP];
-            let mut bad = vec![];
-            if fp1 != rb[R_SP] { bad.push("fp != caller sp"); }
-            if ra[R_SSP] != fp1 + 600 + padded as u64 || ra[R_SP] != ra[R_SSP] { bad.push("ssp/sp != fp + frame + padded code"); }
-            if ra[12] != fp1 + 600 || ra[R_PC] != fp1 + 600 { bad.push("is/pc != code start"); }
-            if ra[11] != fv[1] { bad.push("bal != forwarded coins"); }
-            if ra[15] != 0 { bad.push("flag != 0"); }
-            if ra[R_CGAS] > fv[3] || ra[R_CGAS] > rb[R_CGAS] { bad.push("cgas above forwarded / available"); }
-            if ra[R_HP] != rb[R_HP] { bad.push("hp changed"); }
+            let mut bad: Vec<(&str, String)> = vec![];
+            if fp1 != rb[R_SP] { bad.push(("call-frame-not-at-caller-sp", format!("callee $fp {} != caller $sp {} (sp mod 8 = {})", fp1, rb[R_SP], rb[R_SP] % 8))); }
+            if ra[R_SSP] != rb[R_SP] + 600 + padded as u64 || ra[R_SP] != ra[R_SSP] { bad.push(("callee-stack-not-after-frame-and-code", format!("ssp {} sp {} expected {}", ra[R_SSP], ra[R_SP], rb[R_SP] + 600 + padded as u64))); }
+            if ra[12] != rb[R_SP] + 600 || ra[R_PC] != rb[R_SP] + 600 { bad.push(("callee-is-pc-not-code-start", format!("is {} pc {} expected caller sp + 600 = {}", ra[12], ra[R_PC], rb[R_SP] + 600))); }
+            if ra[11] != fv[1] { bad.push(("callee-bal-not-forwarded-amount", format!("$bal {} but {} coins forwarded (caller's $bal {})", ra[11], fv[1], rb[11]))); }
+            if ra[15] != 0 { bad.push(("callee-flag-not-zero", format!("$flag {}", ra[15]))); }
+            if ra[R_CGAS] > fv[3] || ra[R_CGAS] > rb[R_CGAS] { bad.push(("callee-cgas-above-forwarded", format!("cgas {} forwarded {} available {}", ra[R_CGAS], fv[3], rb[R_CGAS]))); }
+            if ra[R_HP] != rb[R_HP] { bad.push(("call-changed-hp", format!("{} -> {}", rb[R_HP], ra[R_HP]))); }
             for k in (0..64usize).filter(|k| ![R_FP, R_SSP, R_SP, R_PC, 12, 11, 15, R_CGAS, R_GGAS].contains(k)) {
-                if ra[k] != rb[k] { bad.push("a register outside {fp,ssp,sp,pc,is,bal,flag,cgas,ggas} changed"); break; }
+                if ra[k] != rb[k] { bad.push(("call-changed-other-register", format!("register {k}: {} -> {}", rb[k], ra[k]))); break; }
             }
-            if d_after != s.frames_before.len() + 1 { bad.push("depth did not grow by one"); }
-            if !code_ok { bad.push("code area != contract code ++ zero padding"); }
-            if !bad.is_empty() { fails.push(("callee-initial-state".into(), format!("CALL at pc {}: {}", s.pc, bad.join("; ")))); }
-            pend.push(Pending { regs: *rb, depth: s.frames_before.len(), snapshot: sh.read(0, rb[R_SP] as usize), vm_hi });
+            if d_after != s.frames_before.len() + 1 { bad.push(("call-depth-not-plus-one", format!("{} -> {}", s.frames_before.len(), d_after))); }
+            if !code_ok { bad.push(("callee-code-area-not-code-plus-padding", "bytes after the frame differ from contract code ++ zero padding".into())); }
+            // the frame must hold the callee id at its very first byte, i.e. exactly at the caller's $sp
+            if c.frame.len() >= 32 && &sh.read(rb[R_SP], 32)[..] != to { bad.push(("call-frame-not-at-caller-sp", format!("memory at caller $sp {} does not start with the callee id", rb[R_SP]))); }
+            // the CALL itself must not touch the caller's stack [vm_hi, sp): compare with the image BEFORE the step
+            if let Some(pre) = &t.pre_call_stack {
+                let now = sh.read(0, pre.len());
+                if let Some(i) = ((vm_hi as usize).min(pre.len())..pre.len()).find(|&i| now[i] != pre[i]) {
+                    bad.push(("caller-stack-changed-across-call", format!("the CALL at pc {} changed byte {} of the caller's stack (caller $sp {}, {} bytes below it): {} -> {}", s.pc, i, rb[R_SP], rb[R_SP] - i as u64, pre[i], now[i])));
+                }
+            }
+            for (cl, w) in bad { fails.push((cl.to_string(), format!("CALL at pc {}: {}", s.pc, w))); }
+            *st.sp_residues.entry(format!("depth{}:sp%8={}", match d_after { 1 => "1", 2 => "2", 3..=5 => "3-5", _ => "6+" }, rb[R_SP] % 8)).or_insert(0) += 1;
+            if rb[R_SP] % 4 != 0 { st.unaligned_calls += 1; }
+            if fv[1] == 0 && rb[11] != 0 { st.zero_coin_calls_under_nonzero_bal += 1; }
+            pend.push(Pending { regs: *rb, depth: s.frames_before.len(), snapshot: t.pre_call_stack.clone().unwrap_or_default(), vm_hi });
             coq_steps.push(format!("FCall {} {} {} {} {} {} {} {} {} {} {} {} {}",
                 coq_regs64(rb), coq_regs64(ra), coq_bytes(to), coq_bytes(&c.asset), a, b, fv[1], fv[3], code.len(),
                 coq_list(&c.frame.chunks(8).map(|w| be64(w).to_string()).collect::<Vec<_>>()), coq_bool(code_ok), d_after, changed));
@@ -136,7 +151,7 @@ fn run_scenario(out: &mut Out, st: &mut Stats, world: &World, tx: &TxSpec, repla
                         let now = sh.read(0, p.regs[R_SP] as usize);
                         let lo = p.vm_hi as usize;
                         if let Some(i) = (lo..now.len()).find(|&i| now[i] != p.snapshot[i]) {
-                            fails.push(("caller-stack-changed-during-call".into(), format!("byte {} of the caller's stack changed between the CALL at pc {} and the return ({} -> {})", i, p.regs[R_PC], p.snapshot[i], now[i])));
+                            fails.push(("caller-stack-changed-across-call".into(), format!("byte {} of the caller's stack changed between the CALL at pc {} and the return ({} -> {})", i, p.regs[R_PC], p.snapshot[i], now[i])));
                         }
                         if ra[R_HP] > p.regs[R_HP] { fails.push(("heap-pointer-moved-up".into(), format!("hp {} after return > {} at the call", ra[R_HP], p.regs[R_HP]))); }
                         if ra[R_HP] < p.regs[R_HP] { st.callee_alloc_returns += 1; }
@@ -176,7 +191,7 @@ fn main() {
     if args.prop != "C34" { eprintln!("frames: unknown property {}", args.prop); std::process::exit(2); }
     let mut out = Out::new();
     let mut st = Stats { steps: 0, calls: 0, returns: 0, retd_lens: BTreeMap::new(), max_depth: 0, depth_hist: BTreeMap::new(), heap_reads_after_return: 0,
-                         callee_alloc_returns: 0, forwarded_coins: 0, build_errors: 0 };
+                         callee_alloc_returns: 0, forwarded_coins: 0, build_errors: 0, sp_residues: BTreeMap::new(), unaligned_calls: 0, zero_coin_calls_under_nonzero_bal: 0 };
     let mut rng = Rng::new(args.seed ^ 0xC34);
     let oo = args.oracle_only;
     if let Some(p) = &args.replay {
@@ -199,7 +214,7 @@ fn main() {
             let recursion = match k % 5 { 0 => 0, 1 => rng.range(1, 4), 2 => rng.range(5, 12), 3 => rng.range(10, 20), _ => rng.range(20, 27) };
             let cfg = TreeCfg { n_contracts: n, recursion, hostile: Hostile::None, hostile_unit: 0, ldc: rng.chance(1, 4),
                                 actions: if recursion > 9 { rng.range(0, 3) as usize } else { rng.range(0, 8) as usize },
-                                schedule: if rng.chance(1, 5) { GasSchedule::Unit } else { GasSchedule::Default }, gas_limit: 90_000_000, touch: false };
+                                schedule: if rng.chance(1, 5) { GasSchedule::Unit } else { GasSchedule::Default }, gas_limit: 90_000_000, touch: false, misalign_per_mille: 700 };
             let t = gen_tree(&mut rng, &cfg);
             let rj = json!({"kind": "tree", "input": t.to_json()});
             run_scenario(&mut out, &mut st, &t.scn.world, &t.scn.tx, rj, "tree", oo);
@@ -221,6 +236,7 @@ fn main() {
     rng.shuffle(&mut out.cases);   // balance the shards
     out.notes.push(format!("steps {}, completed calls {}, returns to a caller {}, max depth {}, returns after callee allocation {}, loads from callee-allocated heap after return {}, calls forwarding coins {}, scenarios not buildable {}",
         st.steps, st.calls, st.returns, st.max_depth, st.callee_alloc_returns, st.heap_reads_after_return, st.forwarded_coins, st.build_errors));
+    out.notes.push(format!("calls with $sp not a multiple of 4: {}; calls forwarding 0 coins from a frame whose own $bal is non-zero: {}; caller $sp mod 8 at CALL by callee depth: {:?}", st.unaligned_calls, st.zero_coin_calls_under_nonzero_bal, st.sp_residues));
     out.notes.push(format!("max depth per scenario: {:?}", st.depth_hist));
     out.notes.push(format!("RETD lengths: {:?}", st.retd_lens));
     out.write(&args, "From FV Require Import Base.Bytes Run.Frames.\nOpen Scope N_scope.", "fcase", "bad_fcases");
